@@ -19,6 +19,27 @@ from .npx import deep_strip, deep_wrap, _symlists
 
 HOOKS = {}
 CALLS = []  # (family, method, args) of symbolic kernel applications, for mapping assertions
+TERMS = {}  # (engine, path, family, method) -> [(x term, parameter terms, value term)]
+
+
+def add_monotonicity(methods=("cdf", "ppf")):
+    """contract instances: cdf and ppf are non-decreasing in their first argument (same parameters), for every
+    pair of kernel terms created so far on this path"""
+    e = engine()
+    n = 0
+    for (eid, path, fam, method), terms in list(TERMS.items()):
+        if eid != id(e) or path != e.stats["paths"] or method not in methods:
+            continue
+        for i in range(len(terms)):
+            for j in range(i + 1, len(terms)):
+                (x1, p1, v1), (x2, p2, v2) = terms[i], terms[j]
+                if len(p1) != len(p2) or x1.eq(x2):
+                    continue
+                same = z3.And(*[a == b for a, b in zip(p1, p2)]) if p1 else z3.BoolVal(True)
+                e.axiom(z3.Implies(z3.And(same, x1 <= x2), v1 <= v2))
+                e.axiom(z3.Implies(z3.And(same, x2 <= x1), v2 <= v1))
+                n += 1
+    return n
 
 
 def _full_args(real, args, kw):
@@ -63,13 +84,26 @@ def kernel_scalar(fam, method, x, params):
     nan = xs.nan
     for p in ps:
         nan = sym._or_nan(nan, p.nan)
+    TERMS.setdefault((id(e), e.stats["paths"], fam, method), []).append((xs.t, tuple(p.t for p in ps), v))
     if method == "cdf":
         e.axiom(z3.And(v >= 0, v <= 1))
         if fam == "norm":
+            # the normal cdf is a strictly increasing bijection R -> (0,1)
+            e.axiom(z3.And(v > 0, v < 1))
             e.axiom(sym.uf(f"{fam}_ppf", 1 + len(ps))(v, *[p.t for p in ps]) == xs.t)
     elif method == "pdf":
         e.axiom(v >= 0)
     elif method == "ppf":
+        if fam == "norm":
+            # (the median instance Phi^-1(p) >= 0 <=> p >= 1/2 is added by harnesses where needed: as a blanket
+            #  axiom per term it made feasibility checks with ~100 points time out)
+            # |Phi^-1(p)| < 6 for p in [1e-9, 1 - 1e-9]  (Phi^-1(1 - 1e-9) = 5.9978)
+            e.axiom(z3.Implies(z3.And(ps[0].t == 0, ps[1].t == 1, xs.t >= sym.rterm(1e-9), xs.t <= 1 - sym.rterm(1e-9)),
+                               z3.And(v > -6, v < 6)))
+        if fam == "chi2":
+            # chi2_n^-1(p) in [0, 60] for n <= 4 and p <= 1 - 1e-9  (chi2_4^-1(1 - 1e-9) = 48.4)
+            e.axiom(v >= 0)
+            e.axiom(z3.Implies(z3.And(ps[0].t <= 4, xs.t <= 1 - sym.rterm(1e-9)), v <= 60))
         c = sym.uf(f"{fam}_cdf", 1 + len(ps))(v, *[p.t for p in ps])
         e.axiom(z3.Implies(z3.And(xs.t > 0, xs.t < 1), c == xs.t))
         e.axiom(z3.And(c >= 0, c <= 1))
